@@ -25,7 +25,7 @@ import math
 EPS = 2.220446049250313e-16
 
 
-def derivative(f, h0, levels=3, max_levels=6, rel_target=1e-9, abs_target=1e-9, f_eps=8.0, probes=3, probe_rel=1e-6, ratio=1.7):
+def derivative(f, h0, levels=3, max_levels=6, rel_target=1e-9, abs_target=1e-9, f_eps=8.0, probes=5, probe_rel=1e-3, ratio=1.7):
     """Ridders' extrapolation of the central difference quotient of t -> f(t) at t = 0.
 
     levels      rows always computed
@@ -35,10 +35,15 @@ def derivative(f, h0, levels=3, max_levels=6, rel_target=1e-9, abs_target=1e-9, 
                 arguments share their mantissa and the rounding errors of f at the different rows
                 were seen to be coherent (three rows agreeing to 1e-7 on a value that is off by
                 2e-5), which defeats the internal error estimate
-    probes      number of extra evaluations at h0 (1 + k probe_rel), k = 1..probes, used to measure
-                the evaluation noise of f itself: second differences of these closely spaced values
-                contain no signal (spacing^2 f'' is far below one ulp), only rounding noise, so
-                sigma = max |second difference| / 2 estimates the amplitude of the noise in f.
+    probes      number of extra evaluations at h0 (1 + k probe_rel), k = 1..probes (>= 4), used to measure
+                the evaluation noise of f itself: fourth differences of these equally spaced values
+                contain practically no signal (spacing^4 times the fourth derivative), only rounding
+                noise; for independent errors of amplitude sigma their size is sqrt(70) sigma, so
+                sigma = max |4th difference| / 8.  The spacing (1e-3 h0) is deliberately much wider than
+                one ulp of the argument: the rounding error of a value dominated by cancellation (P(t) of
+                a branch of length 1e-8, (exp(g t1) - exp(g t0)) / g at g t = 1e-8) is a staircase whose
+                steps are many ulps wide, so points 1e-6 h0 apart share the same error and second
+                differences there showed a noise 100 times too small.
                 (a rate matrix of order 61 diagonalised numerically has a noise of 1e4 eps, a
                 closed form a few eps: no fixed multiple of eps fits both)
     returns (d, err, info) with info = {"rows", "h", "fmax", "noise", "sigma", "evals", "finite"};
@@ -63,13 +68,13 @@ def derivative(f, h0, levels=3, max_levels=6, rel_target=1e-9, abs_target=1e-9, 
             finite = False
             break
         fmax = max(fmax, abs(fp), abs(fm))
-        if i == 0 and probes >= 2:
+        if i == 0 and probes >= 4:
             pv = [fp]
             for k in range(1, probes + 1):
                 pv.append(float(f(h * (1.0 + k * probe_rel))))
                 evals += 1
             if all(math.isfinite(v) for v in pv):
-                sigma = max(abs(pv[k] - 2.0 * pv[k + 1] + pv[k + 2]) for k in range(len(pv) - 2)) / 2.0
+                sigma = noise_amplitude(pv)
             else:
                 finite = False
                 break
@@ -101,6 +106,14 @@ def derivative(f, h0, levels=3, max_levels=6, rel_target=1e-9, abs_target=1e-9, 
         return float("nan"), float("inf"), {"rows": i, "h": h, "fmax": fmax, "noise": float("inf"), "sigma": sigma, "evals": evals, "finite": False}
     noise = (3.0 * sigma + f_eps * EPS * max(fmax, 1e-300)) / best_h
     return best, best_err, {"rows": i, "h": best_h, "fmax": fmax, "noise": noise, "sigma": sigma, "evals": evals, "finite": True}
+
+
+def noise_amplitude(values):
+    """amplitude of the rounding noise in equally spaced evaluations of a smooth function: largest fourth difference / 8"""
+    v = [float(x) for x in values]
+    if len(v) < 5:
+        return 0.0
+    return max(abs(v[k] - 4.0 * v[k + 1] + 6.0 * v[k + 2] - 4.0 * v[k + 3] + v[k + 4]) for k in range(len(v) - 4)) / 8.0
 
 
 def gradient(fun, x, h, **kw):
